@@ -81,28 +81,33 @@ Definition is_x (c : Z) : bool := (c =? 120) || (c =? 88).
 Definition is_hex (c : Z) : bool :=
   match char_digit c with Some d => d <? 16 | None => false end.
 
+(* optional sign: (negative?, rest) *)
+Definition split_sign (s : list Z) : bool * list Z :=
+  match s with
+  | c :: r => if c =? 45 then (true, r) else if c =? 43 then (false, r) else (false, s)
+  | [] => (false, s)
+  end.
+
+(* "0x" / "0X" followed by a hexadecimal digit *)
+Definition has_0x (s : list Z) : bool :=
+  match s with
+  | z :: x :: h :: _ => (z =? 48) && is_x x && is_hex h
+  | _ => false
+  end.
+
 (* the subject sequence of strtol: white space, optional sign, optional 0x/0X (base 16 or 0,
    only when a hex digit follows), digits.  Returns (negative?, base used, digit values,
    number of characters consumed); no digits = no conversion. *)
 Definition subject (b : Z) (s : list Z) : bool * Z * list Z * nat :=
   let s1 := drop_space s in
-  let nws := (length s - length s1)%nat in
-  let '(neg, s2, nsign) := match s1 with
-                           | c :: r => if c =? 45 then (true, r, 1%nat)
-                                       else if c =? 43 then (false, r, 1%nat) else (false, s1, 0%nat)
-                           | [] => (false, s1, 0%nat)
-                           end in
-  let has0x := match s2 with
-               | z :: x :: h :: _ => (z =? 48) && is_x x && is_hex h
-               | _ => false
-               end in
-  let b' := if b =? 0 then (if has0x then 16
+  let '(neg, s2) := split_sign s1 in
+  let b' := if b =? 0 then (if has_0x s2 then 16
                             else match s2 with z :: _ => if z =? 48 then 8 else 10 | [] => 10 end)
             else b in
-  let skip := ((b =? 0) || (b =? 16)) && has0x in
+  let skip := ((b =? 0) || (b =? 16)) && has_0x s2 in
   let s3 := if skip then skipn 2 s2 else s2 in
   let ds := take_digits b' s3 in
-  (neg, b', ds, (nws + nsign + (if skip then 2 else 0) + length ds)%nat).
+  (neg, b', ds, (length s - length s3 + length ds)%nat).
 
 (* strtol / strtoll (signed t) and strtoul / strtoull (unsigned t): (value, endptr - nptr).
    Out-of-range values saturate (errno is outside this model); for the unsigned functions a
